@@ -117,4 +117,56 @@ def gen_pathcheck():
     return '\n'.join(lines) + '\n'
 
 
-FILES = {'PathCheck.v': gen_pathcheck}
+def gen_parsecalls():
+    """How from_edge_array symmetrises: whether its call of directed2undirected hands over `weighted`."""
+    tree = ast.parse(_src('sknetwork/data/parse.py'))
+    fmt = ast.parse(_src('sknetwork/utils/format.py'))
+    fn = _func(tree, 'from_edge_array')
+    callee = _func(fmt, 'directed2undirected')
+    formals = [a.arg for a in callee.args.args]
+    if formals != ['adjacency', 'weighted'] or callee.args.kwonlyargs or callee.args.vararg or callee.args.kwarg:
+        raise TranslateError('unexpected signature of directed2undirected: %s' % formals)
+    default = callee.args.defaults
+    if len(default) != 1 or ast.unparse(default[0]) != 'True':
+        raise TranslateError('unexpected default of directed2undirected(weighted=...)')
+    calls = _calls(fn, 'directed2undirected')
+    if len(calls) != 1:
+        raise TranslateError('expected exactly one call of directed2undirected in from_edge_array')
+    call = calls[0]
+    if any(isinstance(a, ast.Starred) for a in call.args) or any(k.arg is None for k in call.keywords):
+        raise TranslateError('star arguments in the call of directed2undirected')
+    bound = {}
+    for formal, actual in zip(formals, call.args):
+        bound[formal] = ast.unparse(actual)
+    for k in call.keywords:
+        if k.arg not in formals or k.arg in bound:
+            raise TranslateError('unexpected keyword in the call of directed2undirected')
+        bound[k.arg] = ast.unparse(k.value)
+    if bound.get('adjacency') != 'matrix':
+        raise TranslateError('directed2undirected is not applied to `matrix`')
+    if 'weighted' not in bound:
+        passes = False
+    elif bound['weighted'] == 'weighted':
+        passes = True
+    else:
+        raise TranslateError('unsupported weighted argument: ' + bound['weighted'])
+    # the call must be the whole right-hand side of `matrix = ...` guarded by `if not directed:`
+    ok = False
+    for n in ast.walk(fn):
+        if isinstance(n, ast.If) and ast.unparse(n.test) == 'not directed' and not n.orelse and len(n.body) == 1 \
+                and isinstance(n.body[0], ast.Assign) and n.body[0].value is call and ast.unparse(n.body[0].targets[0]) == 'matrix':
+            ok = True
+    if not ok:
+        raise TranslateError('unexpected context of the directed2undirected call in from_edge_array')
+    # `weighted` must still be the function's flag at that point (never reassigned)
+    for n in ast.walk(fn):
+        if isinstance(n, (ast.Assign, ast.AugAssign, ast.AnnAssign)):
+            tg = n.targets if isinstance(n, ast.Assign) else [n.target]
+            if any(isinstance(t, ast.Name) and t.id in ('weighted', 'directed') for t in tg):
+                raise TranslateError('from_edge_array reassigns a flag')
+    lines = ['(* generated from sknetwork/data/parse.py: from_edge_array -> directed2undirected *)',
+             'Definition pp_sym_passes_weighted : bool := %s.' % _bool(passes)]
+    return '\n'.join(lines) + '\n'
+
+
+FILES = {'PathCheck.v': gen_pathcheck, 'ParseCalls.v': gen_parsecalls}
